@@ -788,7 +788,12 @@ func (self *pnSlice) Swap(i, j int) {
 }
 
 func (self pnSlice) Less(i, j int) bool {
-	return int(uintptr(self.a[i].Node.v)) < int(uintptr(self.a[j].Node.v))
+	vi, vj := uintptr(self.a[i].Node.v), uintptr(self.a[j].Node.v)
+	if vi == vj {
+		// a zero-length node marks an insertion point: it must come before the existing node at the same address
+		return self.a[i].Node.l == 0 && self.a[j].Node.l != 0
+	}
+	return vi < vj
 }
 
 func (self *pnSlice) Sort() {
